@@ -65,6 +65,11 @@ func (c *c03Case) scenario() *Scenario {
 		ev := fmt.Sprintf("I%d.reg", k)
 		rsteps = append(rsteps, rs{pos[ev], Step{Op: "ext.register", Name: name, Events: c.Internal[k], Await: await(ev), Signal: []string{done(ev)}}})
 		ev = fmt.Sprintf("I%d.next", k)
+		if pos[fmt.Sprintf("I%d.reg", k)] > pos["R.next"] {
+			// registered in the window after the runtime's next: this extension never polls. Its place in the order is a no-op.
+			rsteps = append(rsteps, rs{pos[ev], Step{Op: "nop", Await: await(ev), Signal: []string{done(ev)}}})
+			continue
+		}
 		rsteps = append(rsteps, rs{pos[ev], Step{Op: "ext.loop", Name: name, Events: c.Internal[k], Async: true, Tag: name, Await: await(ev), SigParked: done(ev)}})
 	}
 	rsteps = append(rsteps, rs{pos["R.next"], Step{Op: "rt.loop", Async: true, Tag: "rt", Await: await("R.next"), SigParked: done("R.next")}})
@@ -91,6 +96,15 @@ func (c *c03Case) scenario() *Scenario {
 	}
 	sc.Driver = append(sc.Driver, Step{Op: "invoke", Tag: "G", Payload: &kit.Blob{Len: 11, Seed: 4, Kind: "ascii"}})
 	return sc
+}
+
+func posOf(order []string, ev string) int {
+	for i, e := range order {
+		if e == ev {
+			return i
+		}
+	}
+	return -1
 }
 
 func c03Natural(c *c03Case) []string {
@@ -246,9 +260,26 @@ func c03Check(c c03Case) (out kit.Outcome) {
 			}
 		}
 	}
-	if len(accepted) != parties {
-		out.Violate("C03/registration-refused", "%d of %d registrations were accepted during initialisation", len(accepted), parties)
+	window := 0
+	for k := range c.Internal {
+		if posOf(c.Order, fmt.Sprintf("I%d.reg", k)) > posOf(c.Order, "R.next") {
+			window++
+		}
+	}
+	if window > 0 {
+		out.Label("registration-in-window-after-runtime-next")
+	}
+	if len(accepted) < parties-window || len(accepted) > parties {
+		out.Violate("C03/registration-refused", "%d of %d registrations were accepted during initialisation (%d of them attempted after the runtime's next)", len(accepted), parties, window)
 		return out
+	}
+	for _, p := range ps {
+		if p.nextIssue == 0 {
+			// an accepted registration (attempted in the window) that never polls: by (c) nothing may be delivered - any
+			// delivery was reported above - so the invocation legitimately cannot complete; nothing more to judge
+			out.Label("accepted-window-registration-blocks-init")
+			return out
+		}
 	}
 	// (e) everybody arrived: the invocation completes
 	if !expectOK(&out, "C03", tr, "F", kit.Blob{Len: 64, Seed: 3, Kind: "json"}) {
@@ -334,7 +365,8 @@ func c03Gen(t *rapid.T) c03Case {
 		events = append(events, r, n)
 		preds[r] = append([]string{}, allEReg...) // the runtime process exists only after all external registrations
 		preds[n] = []string{r}
-		preds["R.next"] = append(preds["R.next"], r) // registration closes when the runtime asks for next
+		// A registration may also be attempted after the runtime asked for next, while some party is still held back:
+		// by the statement it may be refused or accepted, and if it is accepted the barrier has to wait for it too.
 	}
 	events = append(events, "R.next", "INV")
 	placed := map[string]bool{}
